@@ -39,3 +39,28 @@ package serverinterceptors
 //@   ensures  implies(shErr != nil, calls(handler) == old(calls(handler)))
 //@   ensures  implies(shErr == nil, calls(handler) == old(calls(handler)) + 1 && resolved[shPromise] == 1)
 //@   ensures_panic shErr == nil && calls(handler) == old(calls(handler)) + 1 && resolved[shPromise] == 1
+
+// C01 server breaker interceptors: one activation per call, named by the full method; the request function runs the handler
+// once with the caller's arguments and returns its error unchanged; a rejection is reported as codes.Unavailable, every
+// other error is passed through as it is
+//@ func UnaryBreakerInterceptor
+//@   property C01
+//@   call DoWithAcceptableCtx#0: assert arg_ctx == ctx && arg_name == info.FullMethod
+//@ func UnaryBreakerInterceptor closure 0
+//@   property C01
+//@   flag callbacks_noheap
+//@   call handler#0: assert arg0 == ctx && arg1 == req
+//@   ensures calls(handler) == old(calls(handler)) + 1 && result == ret(handler, 1)
+//@ func StreamBreakerInterceptor
+//@   property C01
+//@   call DoWithAcceptable#0: assert arg_name == info.FullMethod
+//@ func StreamBreakerInterceptor closure 0
+//@   property C01
+//@   flag callbacks_noheap
+//@   call handler#0: assert arg0 == svr && arg1 == stream
+//@   ensures calls(handler) == old(calls(handler)) + 1 && result == ret(handler)
+//@ func convertError
+//@   property C01
+//@   ensures implies(err == nil, result == nil)
+//@   ensures implies(err != nil && !errors.Is(err, breaker.ErrServiceUnavailable), result == err)
+//@   call Error#0: assert arg_c == gcodes.Unavailable
